@@ -1695,104 +1695,309 @@ fn blocks(sink: &mut Sink, o: &Opts) {
     }
 }
 
-/// A random PROGRAM of API calls in one process: several mappings, handles, cache files and
-/// interleaved frame iterators; one log line per call, in execution order (Trace_System).
-/// Objects live until the end of the program (leaked), so that iterators can stay open while other
-/// objects are created and used.
+/// Whole API programs against System.tla.  The objects of a program live in tables (ids 1..8); everything
+/// is leaked so that handles, sub-mappings and iterators can outlive the statement that created them,
+/// like locals of a long function would.  Every call goes to the OBJECT the program names (the mapper is
+/// built from that mapping value, the cache written from it), never to a fresh copy of its bytes.
+struct Sys {
+    bases: Vec<&'static [u8]>,
+    objs: Vec<Option<(ProguardMapping<'static>, &'static [u8])>>,
+    handles: Vec<Option<&'static crate::handles::Handle<'static>>>,
+    files: Vec<Option<&'static crate::handles::Aligned>>,
+    iters: Vec<Option<SysIter>>,
+}
+
+enum SysIter {
+    M(proguard::RemappedFrameIter<'static>),
+    C(Box<dyn Iterator<Item = proguard::StackFrame<'static>>>),
+}
+
+fn leak_str(v: &Value) -> &'static str {
+    Box::leak(crate::handles::utf8(v).into_boxed_str())
+}
+
+impl Sys {
+    fn new(bases: Vec<&'static [u8]>) -> Self {
+        Sys { bases, objs: (0..8).map(|_| None).collect(), handles: vec![None; 8], files: vec![None; 8], iters: (0..8).map(|_| None).collect() }
+    }
+    fn reset(&mut self, sink: &mut Sink) {
+        *self = Sys::new(self.bases.clone());
+        sink.emit(json!({"t": "reset"}));
+    }
+    fn new_mapping(&mut self, sink: &mut Sink, o: usize, m: usize) {
+        self.objs[o] = Some((ProguardMapping::new(self.bases[m]), self.bases[m]));
+        sink.emit(json!({"t": "new", "o": o + 1, "m": m + 1}));
+    }
+    /// the `cut`-th standard range of the object's bytes: first half / second half at a line boundary
+    fn cut_of(bytes: &[u8], cut: usize) -> (usize, usize) {
+        let lfs: Vec<usize> = bytes.iter().enumerate().filter(|(_, b)| **b == b'\n').map(|(i, _)| i + 1).collect();
+        let mid = if lfs.is_empty() { bytes.len() / 2 } else { lfs[(lfs.len() - 1) / 2] };
+        if cut == 0 { (0, mid) } else { (mid, bytes.len()) }
+    }
+    fn section(&mut self, sink: &mut Sink, o2: usize, o: usize, a: usize, b: usize) {
+        let Some((parent, bytes)) = self.objs[o].clone() else { return };
+        if !(a <= b && b <= bytes.len()) {
+            return;
+        }
+        let sub = guarded(std::panic::AssertUnwindSafe(|| parent.section(a..b)));
+        match sub {
+            Ok(m) => {
+                self.objs[o2] = Some((m, &bytes[a..b]));
+                sink.emit(json!({"t": "section", "o2": o2 + 1, "o": o + 1, "a": a, "b": b}));
+            }
+            Err(p) => sink.emit(json!({"t": "section", "o2": o2 + 1, "o": o + 1, "a": a, "b": b, "panic": p})),
+        }
+    }
+    fn clone_mapping(&mut self, sink: &mut Sink, o2: usize, o: usize) {
+        let Some((m, bytes)) = self.objs[o].clone() else { return };
+        self.objs[o2] = Some((m.clone(), bytes));
+        sink.emit(json!({"t": "clone", "o2": o2 + 1, "o": o + 1}));
+    }
+    fn meta(&mut self, sink: &mut Sink, o: usize) {
+        let Some((m, _)) = &self.objs[o] else { return };
+        let got = guarded(std::panic::AssertUnwindSafe(|| crate::replay::meta_answers_of(m))).unwrap_or_else(|p| json!({"panic": p}));
+        sink.emit(json!({"t": "meta", "o": o + 1, "got": got}));
+    }
+    fn uuid(&mut self, sink: &mut Sink, o: usize) {
+        let Some((m, _)) = &self.objs[o] else { return };
+        let got = guarded(std::panic::AssertUnwindSafe(|| enc::bytes(m.uuid().as_bytes()))).unwrap_or_else(|p| json!({"panic": p}));
+        sink.emit(json!({"t": "uuid", "o": o + 1, "got": got}));
+    }
+    fn mapper(&mut self, sink: &mut Sink, h: usize, o: usize, p: bool) {
+        let Some((m, _)) = self.objs[o].clone() else { return };
+        let built = guarded(std::panic::AssertUnwindSafe(|| if p { proguard::ProguardMapper::new_with_param_mapping(m, true) } else { proguard::ProguardMapper::new(m) }));
+        match built {
+            Ok(mapper) => {
+                self.handles[h] = Some(Box::leak(Box::new(crate::handles::Handle::Mapper(mapper))));
+                sink.emit(json!({"t": "mapper", "h": h + 1, "o": o + 1, "params": p}));
+            }
+            Err(msg) => sink.emit(json!({"t": "mapper", "h": h + 1, "o": o + 1, "params": p, "panic": msg})),
+        }
+    }
+    fn write(&mut self, sink: &mut Sink, f: usize, o: usize) {
+        let Some((m, _)) = &self.objs[o] else { return };
+        let r = guarded(std::panic::AssertUnwindSafe(|| {
+            let mut out = Vec::new();
+            proguard::ProguardCache::write(m, &mut out).map(|_| out).map_err(|e| e.to_string())
+        }));
+        match r {
+            Ok(Ok(bytes)) => {
+                sink.emit(json!({"t": "write", "f": f + 1, "o": o + 1, "bytes": enc::bytes(&bytes)}));
+                self.files[f] = Some(Box::leak(Box::new(crate::handles::Aligned::new(&bytes))));
+            }
+            Ok(Err(e)) => sink.emit(json!({"t": "write", "f": f + 1, "o": o + 1, "bytes": [], "error": e})),
+            Err(p) => sink.emit(json!({"t": "write", "f": f + 1, "o": o + 1, "bytes": [], "panic": p})),
+        }
+    }
+    fn write_fail(&mut self, sink: &mut Sink, o: usize, k: usize) {
+        let Some((m, _)) = &self.objs[o] else { return };
+        let mut s = crate::sink::ScriptedSink::new([vec![1 << 30; k.saturating_sub(1)], vec![-2]].concat(), 1 << 30);
+        let r = guarded(std::panic::AssertUnwindSafe(|| proguard::ProguardCache::write(m, &mut s).is_ok()));
+        // a sink that was never asked often enough to fail is an ordinary (successful) write: not logged
+        if !s.any_fail {
+            return;
+        }
+        match r {
+            Ok(ok) => sink.emit(json!({"t": "writefail", "o": o + 1, "k": k, "ok": ok})),
+            Err(p) => sink.emit(json!({"t": "writefail", "o": o + 1, "k": k, "ok": false, "panic": p})),
+        }
+    }
+    fn parse(&mut self, sink: &mut Sink, h: usize, f: usize) {
+        let Some(buf) = self.files[f] else { return };
+        match guarded(std::panic::AssertUnwindSafe(|| proguard::ProguardCache::parse(buf.bytes()).map_err(|e| e.to_string()))) {
+            Ok(Ok(c)) => {
+                self.handles[h] = Some(Box::leak(Box::new(crate::handles::Handle::Cache(c))));
+                sink.emit(json!({"t": "parse", "h": h + 1, "f": f + 1}));
+            }
+            Ok(Err(e)) => sink.emit(json!({"t": "parse", "h": h + 1, "f": f + 1, "error": e})),
+            Err(p) => sink.emit(json!({"t": "parse", "h": h + 1, "f": f + 1, "panic": p})),
+        }
+    }
+    fn query(&mut self, sink: &mut Sink, h: usize, q: &Value) {
+        let Some(handle) = self.handles[h] else { return };
+        let pq: &'static crate::handles::OwnedQuery = Box::leak(Box::new(crate::handles::parse_query(q)));
+        let hr = std::panic::AssertUnwindSafe(handle);
+        let got = guarded(move || hr.answer(pq)).unwrap_or_else(|p| json!({"panic": p}));
+        sink.emit(json!({"t": "q", "h": h + 1, "q": q, "got": got}));
+    }
+    fn sig(&mut self, sink: &mut Sink, h: usize, sig: &str) {
+        let Some(handle) = self.handles[h] else { return };
+        let f = |d: Option<proguard::DeobfuscatedSignature>| match d {
+            None => json!([]),
+            Some(d) => json!([{"params": d.parameters_types().map(enc::s).collect::<Vec<_>>(), "ret": enc::s(d.return_type()), "formatted": enc::s(&d.format_signature())}]),
+        };
+        let got = guarded(std::panic::AssertUnwindSafe(|| match handle {
+            crate::handles::Handle::Mapper(m) => f(m.deobfuscate_signature(sig)),
+            crate::handles::Handle::Cache(c) => f(c.deobfuscate_signature(sig)),
+        }))
+        .unwrap_or_else(|p| json!({"panic": p}));
+        sink.emit(json!({"t": "sig", "h": h + 1, "sig": enc::s(sig), "got": got}));
+    }
+    fn typed(&mut self, sink: &mut Sink, h: usize, levels: &Value) {
+        let Some(handle) = self.handles[h] else { return };
+        let t: &'static proguard::StackTrace<'static> = Box::leak(Box::new(crate::traces::build_trace(levels)));
+        let got = guarded(std::panic::AssertUnwindSafe(|| match handle {
+            crate::handles::Handle::Mapper(m) => enc::stacktrace(&m.remap_stacktrace_typed(t)),
+            crate::handles::Handle::Cache(c) => enc::stacktrace(&c.remap_stacktrace_typed(t)),
+        }))
+        .unwrap_or_else(|p| json!({"panic": p}));
+        sink.emit(json!({"t": "typed", "h": h + 1, "levels": levels, "got": got}));
+    }
+    fn begin(&mut self, sink: &mut Sink, i: usize, h: usize, f: &Value) {
+        let Some(handle) = self.handles[h] else { return };
+        let (class, method) = (leak_str(&f["class"]), leak_str(&f["method"]));
+        let line = enc::from_dec(&f["line"]) as usize;
+        let frame: &'static proguard::StackFrame<'static> = Box::leak(Box::new(match f["params"].as_array().unwrap().first() {
+            Some(p) => proguard::StackFrame::with_parameters(class, method, leak_str(p)),
+            None => match f["file"].as_array().unwrap().first() {
+                Some(file) => proguard::StackFrame::with_file(class, method, line, leak_str(file)),
+                None => proguard::StackFrame::new(class, method, line),
+            },
+        }));
+        self.iters[i] = Some(match handle {
+            crate::handles::Handle::Mapper(mm) => SysIter::M(mm.remap_frame(frame)),
+            crate::handles::Handle::Cache(c) => SysIter::C(Box::new(c.remap_frame(frame))),
+        });
+        sink.emit(json!({"t": "begin", "i": i + 1, "h": h + 1, "frame": f}));
+    }
+    fn next(&mut self, sink: &mut Sink, i: usize) {
+        let Some(it) = self.iters[i].as_mut() else { return };
+        let y = guarded(std::panic::AssertUnwindSafe(|| match it {
+            SysIter::M(x) => x.next(),
+            SysIter::C(x) => x.next(),
+        }));
+        let got = match y {
+            Ok(None) => json!([]),
+            Ok(Some(fr)) => json!([enc::frame(&fr)]),
+            Err(p) => json!({"panic": p}),
+        };
+        sink.emit(json!({"t": "next", "i": i + 1, "got": got}));
+    }
+}
+
+/// the concrete files, queries, frames, descriptor and trace the token numbers of MC_System stand for
+const SYS_BASES: [&[u8]; 2] = [
+    b"# compiler: R8\n# min_api: 21\na.B -> a:\n    void m() -> b\n    int f -> c\nx.Y -> b:\n# {\"id\":\"sourceFile\",\"fileName\":\"Y.kt\"}\n    1:2:void n():3:4 -> c\n    1:2:void o():7 -> c\n    5:5:void p(int) -> d\n",
+    b"x.Z -> b:\n    3:4:int q(long):9:10 -> c\n    void r() -> c\n# compiler_version: 9\nnot a record\np.Q -> a:\n    void s(int) -> b\n",
+];
+
+fn sys_frame(class: &str, method: &str, line: u128, params: Option<&str>) -> Value {
+    json!({"class": enc::s(class), "method": enc::s(method), "line": enc::dec(line), "file": if params.is_some() { json!([]) } else { json!([enc::s("SourceFile")]) },
+           "params": match params { Some(p) => json!([enc::s(p)]), None => json!([]) }})
+}
+
 fn system(sink: &mut Sink, o: &Opts) {
-    use crate::handles::{parse_query, Aligned, Handle, OwnedQuery};
     let mut rng = Rng::new(o.seed);
+    if let Some(cases) = opt_value(o, "--cases") {
+        // programs enumerated by TLC (MC_System): steps [t, x, y, z] over token numbers
+        let bases: Vec<&'static [u8]> = SYS_BASES.to_vec();
+        for (m, src) in bases.iter().enumerate() {
+            sink.emit(json!({"t": "load", "sid": m + 1, "src": enc::bytes(src)}));
+        }
+        let queries = [
+            json!({"t": "frame", "frame": sys_frame("b", "c", 1, None)}),
+            json!({"t": "frame", "frame": sys_frame("a", "b", 0, Some("int"))}),
+            json!({"t": "method", "class": enc::s("b"), "method": enc::s("c")}),
+        ];
+        let frames = [sys_frame("b", "c", 1, None), sys_frame("b", "c", 3, None), sys_frame("a", "b", 0, Some(""))];
+        let levels = json!([
+            {"exception": [{"class": enc::s("b"), "message": [enc::s("boom")]}],
+             "frames": [{"class": enc::s("b"), "method": enc::s("c"), "line": enc::dec(1), "file": [enc::s("SourceFile")], "params": []},
+                        {"class": enc::s("zz.U"), "method": enc::s("f"), "line": enc::dec(1), "file": [enc::s("X.java")], "params": []}]},
+            {"exception": [{"class": enc::s("a"), "message": []}], "frames": []}
+        ]);
+        let mut sys = Sys::new(bases);
+        for line in std::fs::read_to_string(cases).unwrap().lines() {
+            if line.trim().is_empty() {
+                continue;
+            }
+            let c: Value = serde_json::from_str(line).unwrap();
+            sys.reset(sink);
+            for st in c["prog"].as_array().unwrap() {
+                let n = |k: &str| st[k].as_u64().unwrap() as usize;
+                let (x, y, z) = (n("x"), n("y"), n("z"));
+                match st["t"].as_str().unwrap() {
+                    "new" => sys.new_mapping(sink, x - 1, y - 1),
+                    "section" => {
+                        let Some((_, bytes)) = sys.objs[y - 1].clone() else { continue };
+                        let (a, b) = Sys::cut_of(bytes, z - 1);
+                        sys.section(sink, x - 1, y - 1, a, b);
+                    }
+                    "clone" => sys.clone_mapping(sink, x - 1, y - 1),
+                    "meta" => sys.meta(sink, x - 1),
+                    "uuid" => sys.uuid(sink, x - 1),
+                    "mapper" => sys.mapper(sink, x - 1, y - 1, z == 1),
+                    "write" => sys.write(sink, x - 1, y - 1),
+                    "writefail" => sys.write_fail(sink, x - 1, y),
+                    "parse" => sys.parse(sink, x - 1, y - 1),
+                    "q" => sys.query(sink, x - 1, &queries[(y - 1) % queries.len()]),
+                    "sig" => sys.sig(sink, x - 1, "(Lb;[I)La;"),
+                    "typed" => sys.typed(sink, x - 1, &levels),
+                    "begin" => sys.begin(sink, x - 1, y - 1, &frames[(z - 1) % frames.len()]),
+                    "next" => sys.next(sink, x - 1),
+                    other => panic!("unknown program step {other}"),
+                }
+            }
+        }
+        return;
+    }
+    // random programs over generated mappings
     let steps: usize = opt_value(o, "--steps").map(|s| s.parse().unwrap()).unwrap_or(400);
     let nmaps = 4usize;
     let cfg = gen::MapCfg { max_classes: 3, max_members: 6, wild: false, noise: true };
-    let srcs: Vec<&'static [u8]> = (0..nmaps)
+    let bases: Vec<&'static [u8]> = (0..nmaps)
         .map(|k| {
             let m = if k == 3 { gen::mapping_big_class(&mut rng) } else { gen::mapping(&mut rng, &cfg) };
             &*Box::leak(m.into_boxed_slice())
         })
         .collect();
-    for (m, src) in srcs.iter().enumerate() {
+    for (m, src) in bases.iter().enumerate() {
         sink.emit(json!({"t": "load", "sid": m + 1, "src": enc::bytes(src)}));
     }
-    let unis: Vec<gen::Universe> = srcs.iter().map(|s| gen::universe(s)).collect();
-    let mut handles: Vec<Option<(&'static Handle<'static>, usize)>> = vec![None; 8];
-    let mut files: Vec<Option<(&'static Aligned, usize)>> = vec![None; 8];
-    enum It {
-        M(proguard::RemappedFrameIter<'static>),
-        C(Box<dyn Iterator<Item = proguard::StackFrame<'static>>>),
-    }
-    let mut iters: Vec<Option<It>> = (0..8).map(|_| None).collect();
+    // one name universe for all objects: queries may name things of other mappings
+    let all: Vec<u8> = bases.concat();
+    let uni = gen::universe(&all);
+    let mut sys = Sys::new(bases);
     for _ in 0..steps {
-        match rng.below(12) {
-            0 => {
-                let (h, m, p) = (rng.below(8), rng.below(nmaps), rng.chance(1, 2));
-                let mapper = if p { proguard::ProguardMapper::new_with_param_mapping(ProguardMapping::new(srcs[m]), true) } else { proguard::ProguardMapper::new(ProguardMapping::new(srcs[m])) };
-                handles[h] = Some((Box::leak(Box::new(Handle::Mapper(mapper))), m));
-                sink.emit(json!({"t": "mapper", "h": h + 1, "m": m + 1, "params": p}));
-            }
-            1 => {
-                let (f, m) = (rng.below(8), rng.below(nmaps));
-                if let Ok(bytes) = crate::handles::write_cache(srcs[m]) {
-                    sink.emit(json!({"t": "write", "f": f + 1, "m": m + 1, "bytes": enc::bytes(&bytes)}));
-                    files[f] = Some((Box::leak(Box::new(Aligned::new(&bytes))), m));
-                }
-            }
+        let (a, b, c) = (rng.below(8), rng.below(8), rng.below(8));
+        match rng.below(24) {
+            0 | 1 => sys.new_mapping(sink, a, rng.below(nmaps)),
             2 => {
-                let (h, f) = (rng.below(8), rng.below(8));
-                if let Some((buf, m)) = files[f] {
-                    if let Ok(c) = proguard::ProguardCache::parse(buf.bytes()) {
-                        handles[h] = Some((Box::leak(Box::new(Handle::Cache(c))), m));
-                        sink.emit(json!({"t": "parse", "h": h + 1, "f": f + 1}));
+                if let Some((_, bytes)) = sys.objs[b].clone() {
+                    let lfs: Vec<usize> = std::iter::once(0).chain(bytes.iter().enumerate().filter(|(_, x)| **x == b'\n').map(|(i, _)| i + 1)).chain(std::iter::once(bytes.len())).collect();
+                    let (mut x, mut y) = (rng.pick(&lfs), rng.pick(&lfs));
+                    if x > y {
+                        std::mem::swap(&mut x, &mut y);
                     }
+                    sys.section(sink, a, b, x, y);
                 }
             }
-            3..=6 => {
-                let h = rng.below(8);
-                if let Some((handle, m)) = handles[h] {
-                    let q = gen::query(&mut rng, &unis[m], "all");
-                    let pq: &'static OwnedQuery = Box::leak(Box::new(parse_query(&q)));
-                    let hr = std::panic::AssertUnwindSafe(handle);
-                    let got = guarded(move || hr.answer(pq)).unwrap_or_else(|p| json!({"panic": p}));
-                    sink.emit(json!({"t": "q", "h": h + 1, "q": q, "got": got}));
-                }
+            3 => sys.clone_mapping(sink, a, b),
+            4 => sys.meta(sink, a),
+            5 => sys.uuid(sink, a),
+            6 | 7 => sys.mapper(sink, a, b, rng.chance(1, 2)),
+            8 | 9 => sys.write(sink, a, b),
+            10 => sys.write_fail(sink, a, rng.range(1, 6)),
+            11 | 12 => sys.parse(sink, a, b),
+            13..=16 => {
+                let q = gen::query(&mut rng, &uni, "all");
+                sys.query(sink, a, &q);
             }
-            7 | 8 => {
-                let (i, h) = (rng.below(8), rng.below(8));
-                if let Some((handle, m)) = handles[h] {
-                    let focus = if rng.chance(1, 3) { "params" } else { "frame" };
-                    let q = gen::query(&mut rng, &unis[m], focus);
-                    let f = &q["frame"];
-                    let leak = |v: &Value| -> &'static str { Box::leak(crate::handles::utf8(v).into_boxed_str()) };
-                    let (class, method) = (leak(&f["class"]), leak(&f["method"]));
-                    let line = enc::from_dec(&f["line"]) as usize;
-                    let frame: &'static proguard::StackFrame<'static> = Box::leak(Box::new(match f["params"].as_array().unwrap().first() {
-                        Some(p) => proguard::StackFrame::with_parameters(class, method, leak(p)),
-                        None => match f["file"].as_array().unwrap().first() {
-                            Some(file) => proguard::StackFrame::with_file(class, method, line, leak(file)),
-                            None => proguard::StackFrame::new(class, method, line),
-                        },
-                    }));
-                    iters[i] = Some(match handle {
-                        Handle::Mapper(mm) => It::M(mm.remap_frame(frame)),
-                        Handle::Cache(c) => It::C(Box::new(c.remap_frame(frame))),
-                    });
-                    sink.emit(json!({"t": "begin", "i": i + 1, "h": h + 1, "frame": q["frame"]}));
-                }
+            17 => {
+                let s = gen::descriptor(&mut rng, &uni);
+                sys.sig(sink, a, &s);
             }
-            _ => {
-                let i = rng.below(8);
-                if let Some(it) = iters[i].as_mut() {
-                    let y = match it {
-                        It::M(x) => x.next(),
-                        It::C(x) => x.next(),
-                    };
-                    let got = match y {
-                        None => json!([]),
-                        Some(fr) => json!([enc::frame(&fr)]),
-                    };
-                    sink.emit(json!({"t": "next", "i": i + 1, "got": got}));
-                }
+            18 => {
+                let canonical = rng.chance(1, 2);
+                let levels = gen::typed_levels(&mut rng, &uni, canonical);
+                sys.typed(sink, a, &levels);
             }
+            19 | 20 => {
+                let focus = if rng.chance(1, 3) { "params" } else { "frame" };
+                let q = gen::query(&mut rng, &uni, focus);
+                sys.begin(sink, c, a, &q["frame"]);
+            }
+            _ => sys.next(sink, c),
         }
     }
 }
